@@ -69,6 +69,23 @@ def decorate(w, wn, s, rnd):
         wn.add_pattern("nowrap", Pattern("nowrap", [1.0, 0.5, 2.0], time_options=wn.options.time, wrap=False))
 
 
+def exotic_controls(w, wn, s, rnd):
+    """controls the textual control representation of to_dict cannot carry (open known findings); returns the tags of the ones
+    that were added"""
+    C = w.network.controls
+    tags = []
+    pipes = [l["name"] for l in s["links"] if l["type"] == "pipe"]
+    if len(pipes) > 1 and rnd.random() < 0.12:
+        wn.add_control("ctl_flow", C.Control(C.ValueCondition(wn.get_link(pipes[0]), "flow", ">", 0.5),
+                                             C.ControlAction(wn.get_link(pipes[1]), "status", w.network.LinkStatus.Closed)))
+        tags.append("[simple control conditioned on a link]")
+    if pipes and rnd.random() < 0.12:
+        wn.add_control("rule_once", C.Rule(C.TimeOfDayCondition(wn, ">=", 6 * 3600, repeat=False),
+                                           [C.ControlAction(wn.get_link(pipes[0]), "status", w.network.LinkStatus.Open)], name="rule_once"))
+        tags.append("[rule with a clock-time condition that does not repeat]")
+    return tags
+
+
 def norm(d):
     """exactly the normalisation the property allows: tuples -> lists (JSON), empty pattern names, a junction without
     demands comes back with one zero demand"""
@@ -99,10 +116,11 @@ def one(job):
     try:
         wn = simnet.build(w, s)
         decorate(w, wn, s, rnd)
+        tags = exotic_controls(w, wn, s, rnd)
         d0 = wn.to_dict()
     except Exception as e:
         return {"build_exc": "%s: %s" % (type(e).__name__, str(e)[:120])}
-    out = {"seed": seed, "features": sorted(netgen.features_of(s)), "d0": canon(norm(d0)), "variants": []}
+    out = {"seed": seed, "features": sorted(netgen.features_of(s)), "d0": canon(norm(d0)), "variants": [], "tags": tags}
     for name, fn in (("json", lambda: w.network.from_dict(json.loads(json.dumps(d0)))),
                      ("dict", lambda: w.network.from_dict(copy.deepcopy(d0))),
                      ("append_empty", lambda: w.network.from_dict(json.loads(json.dumps(d0)), append=w.network.WaterNetworkModel()))):
@@ -134,7 +152,8 @@ def main(tier, replay):
         for name, d, exc in o["variants"]:
             clause = "C13.append_equal" if name == "append_empty" else "C13.dict_equal"
             if d is None:
-                ck.violation(clause, "%s :: from_dict raised %s" % (name, re.sub(r"\d+(\.\d+)?", "#", exc)), {"seed": o["seed"], "exc": exc})
+                ck.violation(clause, "%s :: from_dict raised %s%s" % (name, re.sub(r"\d+(\.\d+)?", "#", exc), " " + " ".join(o["tags"]) if o["tags"] else ""),
+                             {"seed": o["seed"], "exc": exc})
                 continue
             cases.append({"clause": clause, "x": o["d0"], "y": d})
             meta.append((o, name, d))
@@ -143,7 +162,8 @@ def main(tier, replay):
         o, name, d = meta[gi]
         paths = diff_paths(o["d0"], d)
         gen = sorted({re.sub(r"\[\d+\]", "[]", p) for p in paths})[:4]
-        ck.violation(cases[gi]["clause"], "%s :: %s" % (name, ", ".join(gen)), {"seed": o["seed"], "paths": paths[:10]})
+        ck.violation(cases[gi]["clause"], "%s :: %s%s" % (name, ", ".join(gen), " " + " ".join(o["tags"]) if o["tags"] else ""),
+                     {"seed": o["seed"], "paths": paths[:10]})
     ck.cov["programs"] = ck.cov["counters"].get("programs", 0)
     ck.cov["disagreements_checked"] = len(cases)
     ck.cov["evaluations"] = len(cases)
